@@ -73,5 +73,6 @@ class C06Check(DCheck):
 
 CHECK = C06Check("C06", PROFILE, judge, setup=setup, need_ref=False,
                  nontrivial=lambda run, info: True)
+CHECK.w_share = 0.25
 run_one = CHECK.run_one
 replay_one = CHECK.replay_one
